@@ -422,6 +422,10 @@ func (w *World) importAndCheckCounters() {
 			if o.Num != uint64(len(keys)) || o.Used != uint64(len(keys)) || (len(keys) > 0 && o.First != first) {
 				w.Violate("C08", "C08/"+v.kind+"/counters-differ-from-state/after-import", "chain initialised from the export of height %d: %s %d reports num=%d used=%d first=%d; state holds %d records, first=%d", height, v.kind, id, o.Num, o.Used, o.First, len(keys), first)
 			}
+			// the limit changes only by a successful purchase: an import keeps it
+			if ro := v.obs(w, w.CCtx(), id); ro.Found && ro.StoreErr == nil && ro.Limit != o.Limit {
+				w.Violate("C08", "C08/"+v.kind+"/limit-changed-by-import", "%s %d has in-state limit %d on the exporting chain and %d on the chain initialised from its export", v.kind, id, ro.Limit, o.Limit)
+			}
 			if uint64(len(keys)) > o.Limit {
 				w.Violate("C08", "C08/"+v.kind+"/more-records-than-limit/after-import", "%s %d holds %d records with limit %d after import", v.kind, id, len(keys), o.Limit)
 			}
